@@ -6,7 +6,10 @@ import (
 	"encoding/json"
 	"fmt"
 	"math/rand"
+	"runtime"
 	"strings"
+	"sync"
+	"sync/atomic"
 
 	"github.com/icon-project/goloop/network"
 	"verif/harness/hxlib"
@@ -89,8 +92,12 @@ func runPool(in poolIn, wantCoq bool) (coq string, msg string) {
 type peerSpec struct {
 	ID     int      `json:"id"`
 	Role   byte     `json:"role"`
+	Recv   byte     `json:"recv_role"` // what the peer announced about itself (recvRole); independent of Role
 	Conn   byte     `json:"conn"`
 	Protos []uint16 `json:"protos"`
+	// Claim: the peer is created without roles and announces *Claim in a real query handshake;
+	// Role/Recv are then whatever the package resolved (read back)
+	Claim *byte `json:"claim,omitempty"`
 }
 type evIn struct {
 	Peer    int    `json:"peer"` // index into Peers
@@ -108,6 +115,10 @@ type nodeIn struct {
 	Cbs   []uint16   `json:"cbs"`
 	Peers []peerSpec `json:"peers"`
 	Evs   []evIn     `json:"evs"`
+	// validator list (allowedRoots) before the handshakes and, if non-nil, its replacement
+	// afterwards (revocation); nil = empty list
+	Allowed  []int `json:"allowed_roots,omitempty"`
+	Allowed2 []int `json:"allowed_roots_after,omitempty"`
 }
 
 func u16s(xs []uint16) string {
@@ -128,12 +139,47 @@ func runNode(in nodeIn, wantCoq bool) (coq string, msg string) {
 	perr := hxlib.Catch(func() {
 		n := network.VerifC33NewNode(idBytes(in.Self), in.Cbs, uint8(in.NB), uint16(in.LB))
 		peers := make([]*network.VerifC33Peer, len(in.Peers))
+		specs := append([]peerSpec(nil), in.Peers...) // effective role flags (read back after handshakes)
+		ids := func(l []int) [][]byte {
+			out := make([][]byte, len(l))
+			for i, x := range l {
+				out[i] = idBytes(x)
+			}
+			return out
+		}
+		if in.Allowed != nil {
+			n.SetAllowedRoots(ids(in.Allowed))
+		}
+		final := in.Allowed
 		mk := func(i int) {
 			s := in.Peers[i]
-			peers[i] = n.NewPeer(idBytes(s.ID), s.Role, s.Conn, s.Protos)
+			if s.Claim == nil {
+				peers[i] = n.NewPeer(idBytes(s.ID), s.Role, s.Recv, s.Conn, s.Protos)
+				return
+			}
+			peers[i] = n.NewPeer(idBytes(s.ID), 0, 0, s.Conn, append([]uint16{0}, s.Protos...))
+			n.AddToTopology(peers[i])
+			n.Handshake(peers[i], *s.Claim)
+			specs[i].Protos = append([]uint16{0}, s.Protos...)
+			specs[i].Role, specs[i].Recv = peers[i].Roles()
 		}
 		for i := range in.Peers {
 			mk(i)
+		}
+		if in.Allowed2 != nil {
+			n.SetAllowedRoots(ids(in.Allowed2)) // validator list changes while the peers are connected
+			final = in.Allowed2
+			for i := range in.Peers {
+				specs[i].Role, specs[i].Recv = peers[i].Roles()
+			}
+		}
+		isAllowed := func(id int) bool {
+			for _, x := range final {
+				if x == id {
+					return true
+				}
+			}
+			return false
 		}
 		window := (in.NB - 1) * in.LB
 		floods := 0
@@ -141,8 +187,9 @@ func runNode(in nodeIn, wantCoq bool) (coq string, msg string) {
 		for i, e := range in.Evs {
 			if peers[e.Peer].Closed() {
 				mk(e.Peer) // the peer reconnects
+				specs[e.Peer].Role, specs[e.Peer].Recv = peers[e.Peer].Roles()
 			}
-			sp := in.Peers[e.Peer]
+			sp := specs[e.Peer]
 			pl := make([]byte, 4)
 			binary.BigEndian.PutUint32(pl, e.Payload)
 			res, err := n.OnPacket(peers[e.Peer], network.VerifC33Packet{Proto: e.Proto, Sub: 1, Src: idBytes(e.Src), Dest: e.Dest, TTL: e.TTL,
@@ -161,7 +208,12 @@ func runNode(in nodeIn, wantCoq bool) (coq string, msg string) {
 					note(fmt.Sprintf("event %d: one-hop packet (ttl %d dest %#x) with source %d delivered although it was sent by peer %d", i, e.TTL, e.Dest, e.Src, sp.ID))
 				}
 				if bcast && srcIsPeer && sp.Role&network.VerifC33RoleRoot == 0 {
-					note(fmt.Sprintf("event %d: originator broadcast from peer %d (role flags %d, no validator role) delivered", i, sp.ID, sp.Role))
+					note(fmt.Sprintf("event %d: originator broadcast from peer %d delivered although the peer does not hold the validator role (role flags %d; it announced %d about itself)",
+						i, sp.ID, sp.Role, sp.Recv))
+				}
+				if bcast && srcIsPeer && len(final) > 0 && !isAllowed(sp.ID) {
+					note(fmt.Sprintf("event %d: originator broadcast from peer %d delivered although it is not in the validator list %v (role flags %d, announced %d)",
+						i, sp.ID, final, sp.Role, sp.Recv))
 				}
 				if !oneHop {
 					if at, ok := last[res.Hash]; ok && floods-at < window {
@@ -173,7 +225,7 @@ func runNode(in nodeIn, wantCoq bool) (coq string, msg string) {
 				}
 			}
 			if wantCoq {
-				items = append(items, fmt.Sprintf("(Pr %d %d %d %s, Pk %d %d %d %d %d, (%s, %s, %s))", sp.ID, sp.Role, sp.Conn, u16s(sp.Protos),
+				items = append(items, fmt.Sprintf("(Pr %d %d %d %d %s, Pk %d %d %d %d %d, (%s, %s, %s))", sp.ID, sp.Role, sp.Recv, sp.Conn, u16s(sp.Protos),
 					e.Proto, e.Src, e.Dest, e.TTL, res.Hash, coqBool(res.Delivered > 0), coqBool(res.Closed), coqBool(res.InPool)))
 			}
 		}
@@ -199,8 +251,8 @@ func runRelay(in relayIn) (coq string, msg string) {
 	var relayed bool
 	perr := hxlib.Catch(func() {
 		n := network.VerifC33NewNode(idBytes(1), []uint16{0x0300}, 20, 500)
-		a := n.NewPeer(idBytes(10), 0, network.VerifC33ConnOther, []uint16{0x0300})
-		b := n.NewPeer(idBytes(11), network.VerifC33RoleSeed, network.VerifC33ConnParent, []uint16{0x0300})
+		a := n.NewPeer(idBytes(10), 0, 0, network.VerifC33ConnOther, []uint16{0x0300})
+		b := n.NewPeer(idBytes(11), network.VerifC33RoleSeed, network.VerifC33RoleSeed, network.VerifC33ConnParent, []uint16{0x0300})
 		n.AddToTopology(a)
 		n.AddToTopology(b)
 		var err error
@@ -213,6 +265,127 @@ func runRelay(in relayIn) (coq string, msg string) {
 		return "", "onPacketResult panicked: " + perr
 	}
 	return fmt.Sprintf("(CRelay %s %d %d %s)%%Z", coqBool(in.IsRelay), in.TTL, in.Dest, coqBool(relayed)), ""
+}
+
+// ---------- concurrent callers ----------
+
+type concIn struct {
+	Kind   string `json:"kind"` // pool: PacketPool.Put; node: onPacket from N peers' receive goroutines
+	N      int    `json:"n"`
+	Rounds int    `json:"rounds"`
+	NB     int    `json:"nb"`
+	LB     int    `json:"lb"`
+}
+
+// race runs `rounds` rounds; in each round the n workers are released together (spin barrier)
+// and call fire(round, worker)
+func race(n, rounds int, prepare func(r int), fire func(r, g int), after func(r int)) {
+	var arrive, gate, done atomic.Int64
+	var wg sync.WaitGroup
+	for g := 0; g < n; g++ {
+		wg.Add(1)
+		go func(g int) {
+			defer wg.Done()
+			for r := 0; r < rounds; r++ {
+				arrive.Add(1)
+				for k := 0; gate.Load() <= int64(r); k++ {
+					if k&1023 == 1023 {
+						runtime.Gosched()
+					}
+				}
+				fire(r, g)
+				done.Add(1)
+			}
+		}(g)
+	}
+	for r := 0; r < rounds; r++ {
+		prepare(r)
+		for arrive.Load() < int64(n*(r+1)) {
+			runtime.Gosched()
+		}
+		gate.Store(int64(r + 1))
+		for done.Load() < int64(n*(r+1)) {
+			runtime.Gosched()
+		}
+		after(r)
+	}
+	wg.Wait()
+}
+
+// direct oracle: a flooded packet / hash that is new is reported new to exactly one caller
+func runConc(in concIn, wantCoq bool) (coq string, msg string) {
+	minNew, maxNew := in.N+1, -1
+	bad, firstBad := 0, -1
+	perr := hxlib.Catch(func() {
+		if runtime.GOMAXPROCS(0) < in.N {
+			runtime.GOMAXPROCS(in.N)
+		}
+		rec := func(r, w int) {
+			if w < minNew {
+				minNew = w
+			}
+			if w > maxNew {
+				maxNew = w
+			}
+			if w > 1 {
+				bad++
+				if firstBad < 0 {
+					firstBad = r
+				}
+			}
+		}
+		switch in.Kind {
+		case "pool":
+			pl := network.VerifC33NewPool(uint8(in.NB), uint16(in.LB))
+			var wins atomic.Int64
+			race(in.N, in.Rounds,
+				func(r int) { wins.Store(0) },
+				func(r, g int) {
+					if pl.Put(uint64(1000 + r)) {
+						wins.Add(1)
+					}
+				},
+				func(r int) { rec(r, int(wins.Load())) })
+		case "node":
+			n := network.VerifC33NewNode(idBytes(1), []uint16{protoA}, uint8(in.NB), uint16(in.LB))
+			peers := make([]*network.VerifC33Peer, in.N)
+			for g := range peers {
+				peers[g] = n.NewPeer(idBytes(10+g), byte(g%4), byte((g+1)%4), network.VerifC33ConnOther, []uint16{protoA})
+			}
+			prep := make([]*network.VerifC33Prepared, in.N)
+			before := 0
+			race(in.N, in.Rounds,
+				func(r int) {
+					pl := make([]byte, 4)
+					binary.BigEndian.PutUint32(pl, uint32(r))
+					for g := range peers { // the same flooded packet (origin 60) relayed by every neighbour
+						x, err := n.Prepare(peers[g], network.VerifC33Packet{Proto: protoA, Sub: 1, Src: idBytes(60), Dest: 0, TTL: 0, Payload: pl})
+						if err != nil {
+							panic(err.Error())
+						}
+						prep[g] = x
+					}
+					before = n.DeliveredCount()
+				},
+				func(r, g int) { n.Fire(prep[g]) },
+				func(r int) { rec(r, n.DeliveredCount()-before) })
+		}
+	})
+	if perr != "" {
+		return "", "concurrent " + in.Kind + " run panicked: " + perr
+	}
+	if bad > 0 {
+		what := "PacketPool.Put reported the same new hash as new to more than one of"
+		if in.Kind == "node" {
+			what = "the same flooded packet relayed at the same moment was handed to the application more than once: onPacket called by"
+		}
+		msg = fmt.Sprintf("%s %d concurrent callers in %d of %d rounds (first in round %d, up to %d in one round); Put must test and insert in one critical section",
+			what, in.N, bad, in.Rounds, firstBad, maxNew)
+	}
+	if wantCoq {
+		coq = fmt.Sprintf("(CConcurrent %d %d %d %d %d)%%Z", in.NB, in.LB, in.N, minNew, maxNew)
+	}
+	return coq, msg
 }
 
 // ---------- generators ----------
@@ -333,6 +506,15 @@ func gen(c *hxlib.Ctx) {
 			{ID: 14, Role: 2, Conn: network.VerifC33ConnNone, Protos: []uint16{protoA}},    // connection type undetermined
 			{ID: 15, Role: 2, Conn: network.VerifC33ConnFriend, Protos: []uint16{protoB}}, // does not speak protoA
 		}
+		// what the peers announced about themselves: equal to the resolved role in every other node,
+		// otherwise the opposite claim (a citizen / seed announcing the validator role, a validator announcing less)
+		for k := 0; k < 4; k++ {
+			if (off/per)%2 == 0 {
+				in.Peers[k].Recv = 3 - in.Peers[k].Role
+			} else {
+				in.Peers[k].Recv = in.Peers[k].Role
+			}
+		}
 		end := off + per
 		if end > len(combos) {
 			end = len(combos)
@@ -390,7 +572,7 @@ func gen(c *hxlib.Ctx) {
 		}
 		np := 2 + r.Intn(3)
 		for k := 0; k < np; k++ {
-			in.Peers = append(in.Peers, peerSpec{ID: 10 + k, Role: byte(r.Intn(4)),
+			in.Peers = append(in.Peers, peerSpec{ID: 10 + k, Role: byte(r.Intn(4)), Recv: byte(r.Intn(4)),
 				Conn: []byte{network.VerifC33ConnParent, network.VerifC33ConnChildren, network.VerifC33ConnFriend, network.VerifC33ConnOther}[r.Intn(4)],
 				Protos: []uint16{protoA}})
 		}
@@ -445,6 +627,57 @@ func gen(c *hxlib.Ctx) {
 		coq, msg := runNode(in, want)
 		emit("onpacket-relay", coq, msg, map[string]interface{}{"t": "node", "v": in}, "")
 	}
+	// 5b. roles resolved by the real query handshake against a non-empty validator list:
+	// a real validator, a peer that merely announces the validator role, a peer announcing nothing,
+	// a validator revoked while connected; each originates broadcasts (and relays others')
+	for i := 0; i < c.N(12); i++ {
+		in := nodeIn{NB: 20, LB: 500, Self: 1, Cbs: []uint16{protoA}}
+		claim := func(b byte) *byte { return &b }
+		in.Allowed = []int{20, 23}
+		if i%2 == 0 {
+			in.Allowed2 = []int{20} // 23 is revoked after it connected
+		}
+		conns := []byte{network.VerifC33ConnParent, network.VerifC33ConnChildren, network.VerifC33ConnFriend, network.VerifC33ConnOther}
+		in.Peers = []peerSpec{
+			{ID: 20, Conn: conns[r.Intn(4)], Protos: []uint16{protoA}, Claim: claim(2 | byte(r.Intn(2)))}, // validator
+			{ID: 21, Conn: conns[r.Intn(4)], Protos: []uint16{protoA}, Claim: claim(2 | byte(r.Intn(2)))}, // self-proclaimed
+			{ID: 22, Conn: conns[r.Intn(4)], Protos: []uint16{protoA}, Claim: claim(byte(r.Intn(2)))},     // claims no validator role
+			{ID: 23, Conn: conns[r.Intn(4)], Protos: []uint16{protoA}, Claim: claim(2)},                   // validator, revoked in every other case
+		}
+		order := r.Perm(16)
+		for _, x := range order {
+			pi := x % 4
+			e := evIn{Peer: pi, Proto: protoA, Dest: 0, TTL: 0, Payload: payload}
+			payload++
+			switch x / 4 {
+			case 0, 1: // originator broadcast
+				e.Src = in.Peers[pi].ID
+			case 2: // relayed broadcast of an outside origin
+				e.Src = 70 + r.Intn(3)
+			default: // multicast / one-hop from the peer itself
+				e.Src = in.Peers[pi].ID
+				e.Dest = []byte{1, 2, 255}[r.Intn(3)]
+				e.TTL = byte(r.Intn(2))
+			}
+			in.Evs = append(in.Evs, e)
+		}
+		coq, msg := runNode(in, want)
+		emit("onpacket-claimed-role", coq, msg, map[string]interface{}{"t": "node", "v": in}, "")
+	}
+	// 5c. concurrency: the same new hash offered by 4-8 callers released together, many rounds
+	for i := 0; i < 4; i++ {
+		in := concIn{Kind: "pool", N: 4 + 2*(i%3), Rounds: c.N(6000), NB: 20, LB: 500}
+		if i == 3 {
+			in.NB, in.LB = 3, 4
+		}
+		coq, msg := runConc(in, want)
+		emit("concurrent-pool", coq, msg, map[string]interface{}{"t": "conc", "v": in}, fmt.Sprintf("conc-pool-%d", i))
+	}
+	for i := 0; i < 3; i++ {
+		in := concIn{Kind: "node", N: 4 + 2*i, Rounds: c.N(4000), NB: 20, LB: 500}
+		coq, msg := runConc(in, want)
+		emit("concurrent-onpacket", coq, msg, map[string]interface{}{"t": "conc", "v": in}, fmt.Sprintf("conc-node-%d", i))
+	}
 	// 6. relay decision of the protocol handler
 	for _, isRelay := range []bool{false, true} {
 		for _, ttl := range []byte{0, 1, 2} {
@@ -494,6 +727,12 @@ func replay(raw json.RawMessage) string {
 		json.Unmarshal(in.V, &v)
 		_, msg := runNode(v, false)
 		return msg
+	case "conc":
+		var v concIn
+		json.Unmarshal(in.V, &v)
+		v.Rounds *= 3 // the interleaving is not deterministic: give the replay more rounds
+		_, msg := runConc(v, false)
+		return msg
 	case "relay":
 		var v relayIn
 		json.Unmarshal(in.V, &v)
@@ -507,7 +746,7 @@ func main() {
 	_ = rand.Int
 	hxlib.Main(hxlib.Spec{
 		ID: "C33",
-		Rule: "PacketPool with 1-5 buckets of 0-6 entries (and the production 20x500): random Put/Contains/Clear streams over small hash alphabets, and a hash re-put after W-2..W+1 distinct accepted hashes (W=(buckets-1)*len) from random fill states; onPacket on a PeerToPeer with stub peers: every (peer role flags 0-3, source = peer / other / self, ttl 0/1/2/255, dest 0/1/2/7/255) combination plus undetermined connection type, unannounced protocol, missing callback, immediate duplicate; the same broadcasts relayed by 2-4 peers in random orders with distinct filler packets around the pool window; the relay decision for all (isRelay, ttl, dest); non-trivial = every case; distinct = distinct Coq case term",
+		Rule: "PacketPool with 1-5 buckets of 0-6 entries (and the production 20x500): random Put/Contains/Clear streams over small hash alphabets, and a hash re-put after W-2..W+1 distinct accepted hashes (W=(buckets-1)*len) from random fill states; onPacket on a PeerToPeer with stub peers: every (peer role flags 0-3, source = peer / other / self, ttl 0/1/2/255, dest 0/1/2/7/255) combination plus undetermined connection type, unannounced protocol, missing callback, immediate duplicate; the same broadcasts relayed by 2-4 peers in random orders with distinct filler packets around the pool window; peer role flags and announced (recv) role varied independently, roles resolved by a real query handshake against a non-empty validator list incl. a revoked validator; the same new hash / flooded packet offered by 4-8 goroutines released together by a spin barrier for thousands of rounds (PacketPool.Put and onPacket); the relay decision for all (isRelay, ttl, dest); non-trivial = every case; distinct = distinct Coq case term",
 		Shard: 80,
 		Gen:   gen, Replay: replay,
 	})
